@@ -187,8 +187,11 @@ Spec == Init /\ [][Next]_vars
 
 ----------------------------------------------------------------------------
 (* the property layer applied to what the composed code-shaped spec predicts to be observed *)
-StepOK == [][StepViol(gw, gw', w, obs'.a, obs'.o, obs'.prod, w') = {}]_vars
-QuiescentOK == (net = EmptyBag) => EndViol(gw, w) = {}
+(* a failing monitor is named on the way out (tag MON), so that a stale use of a composed module's
+   ghost / record shape can be told from a finding by its name *)
+Named(viol, a) == viol = {} \/ (PrintT(<<"MON", ToJson([monitors |-> SetToSeq(viol), a |-> a.a, n |-> a.n])>>) /\ FALSE)
+StepOK == [][Named(StepViol(gw, gw', w, obs'.a, obs'.o, obs'.prod, w'), obs'.a)]_vars
+QuiescentOK == (net = EmptyBag) => Named(EndViol(gw, w), obs.a)
 
 (* the assumptions the composition makes about its parts *)
 QueueOK == \A k \in KSeq : Contiguous(w.kp[k].sy.stored) /\ w.kp[k].sy.synced.has
